@@ -393,6 +393,21 @@ def ambient_probe(ctx):
             ctx.fail('parallel_map(f, xs) != [f(x) for x in xs] when two threads map at the same time', case, box)
             if ta.is_alive() or tb.is_alive():
                 break           # calls that do not return: one witness is enough
+    # (iii) values are values: a function that RETURNS exception objects (collected errors of a batch) gets them back, in order
+    for which in ('new', 'old'):
+        errs = [ValueError(i) if i % 2 else i for i in range(9)]
+        case = {'probe': 'f returns exception objects as values', 'which': which}
+        ctx.case(case); ctx.count('ambient:exception-values')
+        box = {}
+
+        def call_e():
+            try:
+                box['out'] = list((th.parallel_map if which == 'new' else it.parallel_map)(lambda i: errs[i], list(range(9)), threads=3))
+            except Exception as e:      # noqa
+                box['out'] = f'{type(e).__name__}: {e}'[:80]
+        _with_alarm(call_e, 30)
+        if not (isinstance(box.get('out'), list) and len(box['out']) == 9 and all(a is b for a, b in zip(box['out'], errs))):
+            ctx.fail('parallel_map(f, xs) != [f(x) for x in xs] when f returns exception objects', case, str(box.get('out'))[:200])
     fake = 'ipykernel' not in sys.modules
     if fake:
         sys.modules['ipykernel'] = types.ModuleType('ipykernel')
